@@ -126,8 +126,36 @@ Proof.
     assert (A : 0 <= (2-h)*(2-h)) by nra. assert (B : (2-h)*(2-h) <= 1) by nra.
     assert (0 <= (2-h)*((2-h)*(2-h))) by nra. assert ((2-h)*((2-h)*(2-h)) <= (2-h)) by nra. split; lra.
 Qed.
-(* the 'Penta' structure: same function, but its range is the scale (scadef 1): it does NOT vanish beyond its range *)
-Lemma penta_beyond_range : exists h, 1 < h /\ ~ cor_penta h == 0.
+(* ---------------------------------------------------------------- pentaspherical ('Penta') *)
+Lemma penta_factor h :
+  1 - h * ((15#8) - (h*h) * ((5#4) - (3#8) * (h*h))) == ((1-h)*(1-h)*(1-h)) * (1 + (9#8)*h + (3#8)*(h*h)).
+Proof. ring. Qed.
+Lemma penta_basic :
+  cor_penta 0 == 1 /\ (forall h, 0 <= h -> 0 <= cor_penta h <= 1) /\ (forall h, 1 <= h -> cor_penta h == 0) /\
+  (forall h, 0 <= h -> h < 1 -> cor_penta h <= (5#2) * (1 - h)).
+Proof.
+  split; [reflexivity|].
+  assert (K : forall h, 0 <= h -> h < 1 ->
+            0 <= ((1-h)*(1-h)*(1-h)) * (1 + (9#8)*h + (3#8)*(h*h)) /\
+            ((1-h)*(1-h)*(1-h)) * (1 + (9#8)*h + (3#8)*(h*h)) <= (5#2) * (1 - h)).
+  { intros h H0 H1. set (a := 1 - h). assert (Ha0 : 0 <= a) by (unfold a; lra). assert (Ha1 : a <= 1) by (unfold a; lra).
+    assert (A2 : 0 <= a*a /\ a*a <= 1) by (split; nra).
+    assert (P : 1 <= 1 + (9#8)*h + (3#8)*(h*h) /\ 1 + (9#8)*h + (3#8)*(h*h) <= 5#2) by (assert (0 <= h*h) by nra; assert (h*h <= 1) by nra; lra).
+    split.
+    - apply mul_nonneg; [|lra]. setoid_replace (a*a*a) with (a*(a*a)) by ring. apply mul_nonneg; [exact Ha0|apply A2].
+    - setoid_replace (a*a*a*(1 + (9#8)*h + (3#8)*(h*h))) with (a * ((a*a) * (1 + (9#8)*h + (3#8)*(h*h)))) by ring.
+      assert ((a*a) * (1 + (9#8)*h + (3#8)*(h*h)) <= 5#2) by nra. nra. }
+  split; [|split].
+  - intros h Hh. unfold cor_penta. cbv zeta. destruct (qltb_spec h 1) as [H|H]; [|lra]. split.
+    + rewrite penta_factor. apply (K h Hh H).
+    + assert (0 <= h * ((15#8) - (h*h) * ((5#4) - (3#8) * (h*h)))).
+      { apply mul_nonneg; [exact Hh|]. assert (0 <= h*h) by nra. assert (h*h <= 1) by nra. nra. }
+      lra.
+  - intros h Hh. unfold cor_penta. cbv zeta. destruct (qltb_spec h 1) as [H|H]; [lra|reflexivity].
+  - intros h H0 H1. unfold cor_penta. cbv zeta. destruct (qltb_spec h 1) as [H|H]; [|lra]. rewrite penta_factor. apply (K h H0 H).
+Qed.
+(* the pre-fix form (Reg1D used with scadef 1) did not vanish beyond its range *)
+Lemma old_penta_beyond_range : exists h, 1 < h /\ ~ cor_reg1d h == 0.
 Proof. exists (3#2). split; [reflexivity|]. vm_compute. discriminate. Qed.
 
 (* ---------------------------------------------------------------- Wendland *)
